@@ -62,6 +62,10 @@ CHECKS = {
                 text="Specifications (identifiers included), greedy id lists, emitted .smt2 text and whole-contract outputs/logs/statistics must be identical across string-hash seeds, working directories and process instances for every generated input.",
                 note="Max-SMT results are excluded (solver time-outs), their problem text is compared instead; load = 16 busy workers",
                 ref="DESIGN.md section 3 C13"),
+    "C05": dict(level="exploration", technique="mutation-based property testing: semantic mutation operators on generated blocks, mutants admitted only with a concrete distinguishing state from the reference interpreter; oracle = checker must reject; reflexivity on all generated blocks; Forves rendering re-parsed by an own reader",
+                text="Pairs (B, mutant) that the independent interpreter can tell apart on a concrete state must be answered 'not equal' by compare_asm_block_asm_format; every generated block must compare equal to itself; the external-checker adapter's rendering must decode to exactly the segments of both blocks and its verdict may be true only for undistinguished pairs.",
+                note="distinguishability decided on >= 60 states by vf/evm.py (mutants without witness are discarded, counted); out-of-domain-only differences are not used as witnesses",
+                ref="DESIGN.md section 3 C05"),
 }
 
 NOT_YET = {}
